@@ -188,6 +188,36 @@ Proof.
 Qed.
 Print Assumptions C13_files_classified.
 
+(* storeDKGOutput makes no destructive key-store call: its calls, as read from the source, are Saves only *)
+Theorem C13_store_output_non_destructive : store_output_non_destructive crash_shape = true.
+Proof. reflexivity. Qed.
+Print Assumptions C13_store_output_non_destructive.
+
+(* for the write order of the real code no crash point of any well-formed history removes a file
+   of the previous epoch before the node has left: once an epoch >= 2 is recorded as completed,
+   both key files exist (possibly being rewritten in place - the recorded classes (ii)/(iii)) *)
+Theorem C13_previous_pair_never_removed : forall evs cp,
+  wf_hist 0 false evs = true ->
+  class_prev_destroyed (crash cp (expand_all crash_shape evs) empty_state) = false.
+Proof.
+  rewrite C13_shape_obligation. intros evs cp W.
+  apply (prev_pair_never_destroyed evs 0 false empty_state cp W files_inv_empty).
+Qed.
+Print Assumptions C13_previous_pair_never_removed.
+
+(* the obligation is not idle: with a Reset in front of the Saves, a crash right after it (or
+   between its two removals) leaves nothing of the previous epoch and the restart fails *)
+Example C13_reset_before_saves_destroys_previous_pair :
+  let sh := mkShape [[BCurrent]] [[BFinished; BCurrent]] [KReset; KSave KGroup; KSave KShare] [KShare; KGroup] true [[1]] true true in
+  let run := expand_all sh reshare_hist in
+  store_output_non_destructive sh = false /\
+  class_prev_destroyed (crash (CAfter 11) run empty_state) = true /\
+  node_restart (crash (CAfter 11) run empty_state) = RFailNoGroup /\
+  class_prev_destroyed (crash (CAfter 10) run empty_state) = true /\
+  node_restart (crash (CAfter 10) run empty_state) = RFailShare /\
+  class_prev_destroyed (crash (CAfter 9) run empty_state) = false.
+Proof. vm_compute. repeat split; reflexivity. Qed.
+
 (* ---------------- non-vacuity ---------------- *)
 
 Example C13_nonvacuous :
